@@ -90,10 +90,12 @@ func evalProgram(vm *r.VM, program *syntax.Program, varInputs r.ElementMap) (r.E
 }
 
 func evalExecBlock(vm *r.VM, execBlock *syntax.ExecBlock, params []r.Element) (r.Element, error) {
-	vm.BeginScope()
-	defer vm.EndScope()
+	scope := vm.BeginScope()
+	defer vm.EndScopeOf(scope)
 
 	blockModule := vm.GetCurrentModule()
+	// depth of the call stack while this body runs (its own frame on top)
+	blockDepth := len(vm.GetCallStack())
 	// 1.0 inject 此 value from callFrame's context (for method functions ONLY)
 	if vm.GetCurrentCallFrame() != nil && vm.GetCurrentCallFrame().IsFunctionCallFrame() {
 		thisValue := vm.GetThisValue()
@@ -124,7 +126,7 @@ func evalExecBlock(vm *r.VM, execBlock *syntax.ExecBlock, params []r.Element) (r
 	rtnValue, stmtBlockErr := evalStmtBlock(vm, execBlock.StmtBlock)
 
 	if stmtBlockErr != nil {
-		return handleExceptionSignal(vm, blockModule, execBlock.CatchBlock, stmtBlockErr)
+		return handleExceptionSignal(vm, blockModule, blockDepth, execBlock.CatchBlock, stmtBlockErr)
 	}
 
 	return rtnValue, stmtBlockErr
@@ -155,8 +157,8 @@ func evalStmtBlock(vm *r.VM, stmtBlock *syntax.StmtBlock) (r.Element, error) {
 
 // evalPureStmtBlock - evaluate statement block without classDef/funcDef/import statements
 func evalPureStmtBlock(vm *r.VM, stmtBlock *syntax.StmtBlock) (r.Element, error) {
-	vm.BeginScope()
-	defer vm.EndScope()
+	scope := vm.BeginScope()
+	defer vm.EndScopeOf(scope)
 
 	var rtnValue r.Element
 	var err error
@@ -178,7 +180,7 @@ func evalPureStmtBlock(vm *r.VM, stmtBlock *syntax.StmtBlock) (r.Element, error)
 	return rtnValue, err
 }
 
-func handleExceptionSignal(vm *r.VM, blockModule *r.Module, catchBlock []*syntax.CatchBlockPair, blockErr error) (r.Element, error) {
+func handleExceptionSignal(vm *r.VM, blockModule *r.Module, blockDepth int, catchBlock []*syntax.CatchBlockPair, blockErr error) (r.Element, error) {
 	// try to find if the blockErr is an exception signal
 	exception, realErr := extractSignalValue(blockErr, zerr.SigTypeException)
 
@@ -214,6 +216,10 @@ func handleExceptionSignal(vm *r.VM, blockModule *r.Module, catchBlock []*syntax
 
 		// if exception block matches exception className
 		if objClassName != "" && classID.GetLiteral() == objClassName {
+			// the exception is handled here: drop the frames of the calls it aborted, so that
+			// the handler (and the caller afterwards) runs on top of this body's own frame
+			vm.UnwindCallStack(blockDepth)
+
 			expCallFrame := r.NewExceptionCallFrame(blockModule, exception)
 			vm.PushCallFrame(expCallFrame)
 			// do execution (with "this" value = exception value)
@@ -586,8 +592,8 @@ func evalBranchStmt(vm *r.VM, node *syntax.BranchStmt) error {
 }
 
 func evalIterateStmt(vm *r.VM, node *syntax.IterateStmt) error {
-	vm.BeginScope()
-	defer vm.EndScope()
+	scope := vm.BeginScope()
+	defer vm.EndScopeOf(scope)
 
 	// pre-defined key, value variable name
 	var keySlot, valueSlot *r.IDName
